@@ -261,6 +261,9 @@ class Interp:
         return INT_TYPES[ty]
 
     def binop(s, op, a, b, ty):
+        if isinstance(a, float) or isinstance(b, float):
+            return {'Lt': a < b, 'Le': a <= b, 'Gt': a > b, 'Ge': a >= b, 'Eq': a == b, 'Ne': a != b,
+                    'Add': a + b, 'Sub': a - b, 'Mul': a * b, 'Div': a / b if op == 'Div' else None}[op]
         w, signed = INT_TYPES.get(ty, (64, 0))
         if not is_sym(a) and not is_sym(b):
             return s.binop_conc(op, a, b, w, signed)
@@ -394,6 +397,8 @@ class Interp:
         m = re.fullmatch(r'(-?\d+)_(\w+)', c)
         if m: return int(m.group(1))
         if c == '()': return UNIT
+        m = re.fullmatch(r'(-?[\d.]+(?:[eE][-+]?\d+)?)f64', c)
+        if m: return float(m.group(1))
         if c == 'true': return True
         if c == 'false': return False
         m = re.fullmatch(r"'(.*)'", c)
@@ -482,7 +487,11 @@ class Interp:
     def rvalue(s, f, frame, rv, dty):
         m = re.fullmatch(r'(.*) as (\w+) \((\w+)\)', rv)
         if m:
-            return s.operand(f, frame, m.group(1))      # char->u32 etc; widths ignored in prototype
+            v = s.operand(f, frame, m.group(1))
+            if m.group(3) == 'IntToFloat':
+                if is_sym(v): raise Unsupported('symbolic IntToFloat')
+                return float(v)
+            return v      # char->u32 etc; widths ignored in prototype
         if rv.startswith(('copy ', 'move ', 'const ', 'no_retag ')):
             return s.operand(f, frame, rv)
         m = re.fullmatch(r'&(mut )?(.*)', rv)
@@ -602,6 +611,30 @@ class Interp:
         if c == 'Vec::<Token>::new': return []
         if c == 'Vec::<Token>::push': a[0].get().append(a[1]); return UNIT
         if c in ('<char as Into<String>>::into', '<&str as Into<String>>::into'): return ('String', a[0])
+        m = re.fullmatch(r'(Option|Result)::<.*>::(expect|unwrap)', c)
+        if m:
+            ok = 1 if m.group(1) == 'Option' else 0
+            if a[0].var != ok: raise Panic(m.group(2) + ' failed')
+            return a[0].f[0]
+        if re.fullmatch(r"<T as Into<Cow<VCell>>>::into|<&VCell as Into<Cow<VCell>>>::into", c.replace("'_, ", '')):
+            return Agg('Cow', 0, [a[0]]) if isinstance(a[0], Ref) else Agg('Cow', 1, [a[0]])
+        if re.fullmatch(r'<T as Into<VCell>>::into|<VCell as Into<VCell>>::into', c): return a[0]
+        if re.fullmatch(r'<.* as ToString>::to_string|format|alloc::fmt::format', c): return ('String', 'opaque')
+        if c == '<std::ops::Range<usize> as Iterator>::rev': return Agg('Rev', None, [a[0]])
+        if c == '<Rev<std::ops::Range<usize>> as IntoIterator>::into_iter': return a[0]
+        if c == '<Rev<std::ops::Range<usize>> as Iterator>::next':
+            r = a[0].get().f[0]
+            if s.branch(s.binop('Lt', r.f[0], r.f[1], 'usize')):
+                r.f[1] = s.binop('Sub', r.f[1], 1, 'usize'); return mk_some(r.f[1])
+            return NONE()
+        if re.fullmatch(r'std::vec::from_elem::<.*>', c):
+            return [s.clone(a[0]) for _ in range(a[1])]
+        m = re.fullmatch(r'Vec::<.*>::resize', c)
+        if m:
+            lst = a[0].get()
+            while len(lst) < a[1]: lst.append(s.clone(a[2]))
+            del lst[a[1]:]
+            return UNIT
         if re.fullmatch(r'<Vec<.*> as Deref(Mut)?>::deref(_mut)?', c): return a[0]
         if re.fullmatch(r'<Rc<.*> as (Deref|AsRef<.*>)>::(deref|as_ref)', c): return a[0].get()
         m = re.fullmatch(r'core::slice::<impl \[.*\]>::get(_mut)?::<usize>', c)
@@ -656,6 +689,10 @@ class Interp:
                 k = '<%s as From<%s>>::from' % (im.group(1).split('::')[-1], m.group(1))
                 if k in INDEX: return INDEX[k]
             return None
+        m = re.fullmatch(r'(?:[\w:]+::)?<impl ([\w:]+)>::(\w+)', c)
+        if m:
+            k = '%s::%s' % (m.group(1).split('::')[-1], m.group(2))
+            if k in INDEX: return INDEX[k]
         parts = c.split('::')
         if len(parts) >= 2:
             k = '%s::%s' % (re.sub(r'<.*', '', parts[-2]), parts[-1])
